@@ -128,6 +128,7 @@ fn main() {
             "hist" => suites::hist::run(&mut ctx),
             "snap" => suites::snap::run(&mut ctx),
             "look" => suites::look::run(&mut ctx),
+            "rw" => suites::rw::run(&mut ctx),
             "ord" => suites::meta::run_order(&mut ctx),
             "ren" => suites::meta::run_rename(&mut ctx),
             _ => panic!("unknown suite"),
